@@ -9,7 +9,7 @@ import RosuModel.Lemmas.GradualTaiko
 For every abstract skill state `S` (hence for the real strain skills): the `i`-th value a
 gradual calculator produces is the one-shot result for `passed_objects = i`, it produces exactly
 `len()` values, and the last one is the full one-shot result.  osu!standard and osu!catch are
-proved outright, osu!mania under the hypothesis the proof forces (`incGrad = incOne`), osu!taiko
+proved outright (osu!mania since the fix /repo 1b784a7), osu!taiko
 has `decide`d counter-witnesses (the statement is false of the code, see known findings).
 -/
 
@@ -147,45 +147,39 @@ example : CatchWellFormed [.fruit, .tiny 2, .droplet, .tiny 1, .fruit] := by
 
 /-! ## osu!mania -/
 
-/-- Hypothesis forced by the proof: the gradual path's recomputed combo increment equals the
-one-shot increment for every object. -/
-def ManiaIncAgree (objs : List ManiaObj) : Prop :=
-  ∀ o ∈ objs, (if o.isCircle then 1 else o.incGrad) = o.incOne ∧ (o.isCircle = true → o.incOne = 1)
-
-
-theorem maniaGradPrefix_eq_oneShot (objs : List ManiaObj) (k : Nat) (h : ManiaIncAgree objs) :
+theorem maniaGradPrefix_eq_oneShot (objs : List ManiaObj) (k : Nat) :
     maniaGradPrefix objs k =
       (((objs.take k).map (·.incOne)).sum, ((objs.take k).filter (fun o => !o.isCircle)).length) := by
   unfold maniaGradPrefix
-  suffices hs : ∀ (l : List ManiaObj) (a : Nat × Nat), (∀ o ∈ l, (if o.isCircle then 1 else o.incGrad) = o.incOne) →
+  suffices hs : ∀ (l : List ManiaObj) (a : Nat × Nat),
       l.foldl maniaAccStep a = (a.1 + (l.map (·.incOne)).sum, a.2 + (l.filter (fun o => !o.isCircle)).length) by
-    have := hs (objs.take k) (0, 0) (fun o ho => (h o (List.mem_of_mem_take ho)).1)
+    have := hs (objs.take k) (0, 0)
     simpa using this
   intro l
   induction l with
-  | nil => intro a _; simp
+  | nil => intro a; simp
   | cons o t ih =>
-    intro a hl
+    intro a
     simp only [List.foldl_cons]
-    rw [ih _ (fun o' ho' => hl o' (List.mem_cons_of_mem _ ho'))]
-    have ho := hl o (List.mem_cons_self)
+    rw [ih _]
     unfold maniaAccStep
     by_cases hcirc : o.isCircle = true
-    · simp only [hcirc, ↓reduceIte] at ho ⊢
-      simp [hcirc, ← ho]; omega
-    · simp only [hcirc] at ho ⊢
-      simp only [Bool.false_eq_true, ↓reduceIte] at ho ⊢
-      simp [hcirc, ← ho]; omega
+    · simp [hcirc]; omega
+    · simp [hcirc]; omega
 
-theorem maniaOneShot_eq_value (sk : Skills S) (objs : List ManiaObj) (i : Nat) (hi : i ≤ objs.length)
-    (h : ManiaIncAgree objs) : maniaOneShot sk objs i = maniaValue sk objs i := by
+theorem maniaOneShot_eq_value (sk : Skills S) (objs : List ManiaObj) (i : Nat) (hi : i ≤ objs.length) :
+    maniaOneShot sk objs i = maniaValue sk objs i := by
   unfold maniaOneShot maniaValue
-  rw [maniaGradPrefix_eq_oneShot objs i h]
+  rw [maniaGradPrefix_eq_oneShot objs i]
   simp [List.length_take, Nat.min_eq_left hi]
 
-/-- **mania (partial)**: under `ManiaIncAgree` the first `n` calls of `next` return exactly the
-one-shot results for `passed_objects = 1, …, n`, then `None`; `len()` announces `n`. -/
-theorem mania_next_eq_prefix_partial (sk : Skills S) (objs : List ManiaObj) (h : ManiaIncAgree objs) :
+/-- **mania**: for every object list (any per-object combo values) the first `n` calls of `next`
+return exactly the one-shot results for `passed_objects = 1, …, n`, then `None`; `len()` announces
+`n`.  (Before /repo 1b784a7 the gradual path recomputed each hold note's combo from
+`(t / clock_rate) * clock_rate` and this theorem needed the hypothesis "recomputed increment =
+one-shot increment", which the code violated for clock rates such as 1.1 and 1.3; that defect is
+fixed and recorded under `fixed` in known_findings.json.) -/
+theorem mania_next_eq_prefix (sk : Skills S) (objs : List ManiaObj) :
     ((maniaMachine sk objs).nexts (maniaNew sk objs) objs.length).1 =
       (List.range objs.length).map (fun d => Res.some (maniaOneShot sk objs (d + 1))) ∧
     ((maniaMachine sk objs).next ((maniaMachine sk objs).nexts (maniaNew sk objs) objs.length).2).1 = .none ∧
@@ -197,7 +191,7 @@ theorem mania_next_eq_prefix_partial (sk : Skills S) (objs : List ManiaObj) (h :
     intro d hd
     have hdlt : d < objs.length := by simpa using hd
     simp only [Nat.zero_add]
-    rw [maniaOneShot_eq_value sk objs (d + 1) (by omega) h]
+    rw [maniaOneShot_eq_value sk objs (d + 1) (by omega)]
   · simp only [Nat.zero_add] at hc
     rw [maniaMachine_next_exhausted sk objs _ hc]
   · have := maniaLen_spec sk objs _ 0 (maniaNew_canon sk objs)
@@ -209,15 +203,11 @@ theorem mania_last_eq_full (sk : Skills S) (objs : List ManiaObj) (take : Nat) (
   unfold maniaOneShot
   simp [List.take_of_length_le ht, Nat.min_eq_right ht]
 
-/-- Non-vacuity of `ManiaIncAgree`. -/
-example : ManiaIncAgree [⟨true, 1, 1⟩, ⟨false, 4, 4⟩] := by
-  unfold ManiaIncAgree; decide
-
-/-- The code does not satisfy `ManiaIncAgree` in general, and then gradual ≠ one-shot: concrete
-witness (a hold note whose recomputed increment is one smaller). -/
-theorem mania_gradual_ne_oneshot_witness :
-    let objs : List ManiaObj := [⟨true, 1, 1⟩, ⟨false, 4, 3⟩]
-    ((maniaMachine unitSkills' objs).nexts (maniaNew unitSkills' objs) 2).1.getLast? ≠
+/-- Non-vacuity: a circle followed by a hold note worth four combo; the second `next` reports
+combo 5, two objects, one hold note — the one-shot value for `passed_objects = 2`. -/
+example :
+    let objs : List ManiaObj := [⟨true, 1⟩, ⟨false, 4⟩]
+    ((maniaMachine unitSkills' objs).nexts (maniaNew unitSkills' objs) 2).1.getLast? =
       some (Res.some (maniaOneShot unitSkills' objs 2)) := by
   decide
 
